@@ -42,7 +42,7 @@ MANIFEST = {
     "design_ref": "DESIGN.md section 5 C31",
 }
 
-KINDS = {"single": 0, "not": 1, "and": 2, "or": 3, "range": 4, "same": 5, "implies_exists": 6, "missing": 7}
+KINDS = {"single": 0, "not": 1, "and": 2, "or": 3, "range": 4, "same": 5, "implies_exists": 6, "missing": 7, "eq_bounds": 8}
 
 
 def par(q):
@@ -77,9 +77,79 @@ def numeric_case(rng):
                    "%s:%s%s" % (f, lo, numtext(b)), "%s:%s%s" % (f, hi, numtext(b2))]}
 
 
+TAGKEYS = ["time", "a", "tag1"]
+COLONV = ["12:30", "1:9", "5:zz", ":x", "9:1", "a:", "1:", ":", "10:5", "b:c:d", "5", "zz", "12", "13", "a:b", "9",
+          "1:10", "::", "x::y", "30"]
+TAGBOUNDS = ["5", "12", "13", "1", "9", "a", "zz", "*", "30", "10", "b", "0", "c"]
+
+
+def qesc(v):
+    return v.replace(":", "\\:")
+
+
+def tagcolon_case(rng):
+    """tags whose value itself contains colons (empty segments, numeric-looking tails), queried by term / wildcard /
+    comparison / range on their key"""
+    from vlib import js, ja, jo
+    k = rng.choice(TAGKEYS)
+    vals = [rng.choice(COLONV) for _ in range(rng.randint(1, 3))]
+    tags = [js("%s:%s" % (k, v)) for v in vals]
+    if rng.random() < 0.3:
+        tags.append(js("%s:%s" % (rng.choice(TAGKEYS), rng.choice(COLONV))))
+    rng.shuffle(tags)
+    ev = jo([("tags", ja(tags))])
+    v = rng.choice(vals) if rng.random() < 0.75 else rng.choice(COLONV)
+    r = rng.random()
+    if r < 0.35:
+        e = qesc(v)
+        return {"op": "match", "kind": "eq_bounds", "ev": ev,
+                "qs": ["%s:%s" % (k, e), "%s:[%s TO *]" % (k, e), "%s:[* TO %s]" % (k, e), "%s:[%s TO %s]" % (k, e, e)]}
+    a, b = rng.choice(TAGBOUNDS), rng.choice(TAGBOUNDS)
+    if r < 0.65:
+        incl = rng.random() < 0.5
+        br, lo, hi = ("[]", ">=", "<=") if incl else ("{}", ">", "<")
+        if a == "*" or b == "*":
+            return {"op": "match", "kind": "single", "ev": ev, "qs": ["%s:%s%s TO %s%s" % (k, br[0], a, b, br[1])]}
+        return {"op": "match", "kind": "range", "ev": ev,
+                "qs": ["%s:%s%s TO %s%s" % (k, br[0], a, b, br[1]), "%s:%s%s" % (k, lo, a), "%s:%s%s" % (k, hi, b)]}
+    if r < 0.8:
+        if a == "*":
+            a = "5"
+        q = "%s:%s%s" % (k, rng.choice(ddlib.CMPOPS), a)
+        return {"op": "match", "kind": "not", "ev": ev, "qs": [q, "NOT (%s)" % q]}
+    q = rng.choice(["%s:%s" % (k, qesc(v)), "%s:%s*" % (k, qesc(v[:1]) or "x"), "%s:*%s" % (k, qesc(v[-1:]) or "x"),
+                    "%s:*" % k, '%s:"%s"' % (k, v)])
+    return {"op": "match", "kind": "implies_exists", "ev": ev, "qs": [q, "_exists_:%s" % k]}
+
+
+MSGS = ["hello world", "foo bar", "hello foo-bar world", "bar_baz foo.bar", "foobar", "a b c", "Foo foo"]
+
+
+def default_message_case(rng):
+    """no other default field than `message`: a field-less leaf and the same leaf on `message:` must agree"""
+    from vlib import js, jo
+    msg = rng.choice(MSGS)
+    kvs = [("message", js(msg))]
+    if rng.random() < 0.5:
+        kvs.append(("host", js(rng.choice(ddlib.STRV))))
+    if rng.random() < 0.3:
+        kvs.append(("a", ddlib.attr_value(rng)))
+    w = rng.choice(msg.replace("-", " ").split(" ") + ["hello", "foo", "zzz", msg])
+    form = rng.choice(["%s", "%s", '"%s"', "%s*", "*%s"])
+    if " " in w:
+        form = '"%s"'
+    v = form % w.replace("-", "\\-")
+    return {"op": "match", "kind": "same", "ev": jo(kvs), "qs": [v, "message:%s" % v]}
+
+
 def gen_case(rng):
-    if rng.random() < 0.15:
+    r0 = rng.random()
+    if r0 < 0.15:
         return numeric_case(rng)
+    if r0 < 0.27:
+        return tagcolon_case(rng)
+    if r0 < 0.32:
+        return default_message_case(rng)
     ev = event(rng)
     r = rng.random()
     d = rng.choice([0, 0, 1, 1, 2, 3])
